@@ -32,6 +32,11 @@ func verifBuild(sc *scen.Scenario) (debView, bool) {
 // the MD5 of the bytes shipped for that member and its relative name.
 func Verif_C03_DebDigests() {
 	sc := scen.Payload(scen.Options{SymContent: true, SymDst: true, Second: -1})
+	if v.NondetBool("name.with.a.percent.sign") {
+		// names are data: a '%' in one must come out as it is (url-encoded names, "100%.txt")
+		pc := models.AddFile("/src/pc", []byte("P"), 0o644, sc.MTime)
+		sc.Info.Contents = append(sc.Info.Contents, &files.Content{Source: pc, Destination: "/zz/a%sb%d"})
+	}
 	d, ok := verifBuild(sc)
 	v.Reach("C03.deb.ran")
 	if !ok {
